@@ -109,8 +109,8 @@ func c07Replay(r *an.Run) {
 					}
 					onlyGuards(o, f, w, []string{
 						`^len\([A-Za-z]+\.Reason\) == [A-Za-z]+$`, // the size test
-						`^!\(.*\)$`,                               // earlier exits not taken (hodl masks)
-						`^case \*lnwire\.UpdateFailHTLC$`,          // the message kind
+						`^!\(.*\)$`,                       // earlier exits not taken (hodl masks)
+						`^case \*lnwire\.UpdateFailHTLC$`, // the message kind
 					}, "the conversion mark")
 					guarded(o, f, w, an.Cmp(an.Len(canonTerm(`\.Reason$`)), an.EQ, canonTerm(`^\(?lnwire\.FailureMessageLength \+ 4\)?$`), "len(msg.Reason) == lnwire.FailureMessageLength + 4"))
 				}
